@@ -9,6 +9,13 @@ CHECKS = {
          "trusts the harness value model / conversion; known open findings are carved out of the generator by construction and counted"),
 }
 
+CHECKS["C05"] = ("exploration", "property-based testing (proptest): differential against an independent spec-derived reference codec, both directions, over generated values and encoding-variant choices",
+  "seeded proptest search with shrinking; implementation output must be accepted by the strict reference decoder and equal the model, and every reference encoding (all spec-permitted width/elision/descriptor variants) must decode to the same value via slice and io readers",
+  "trusts harness/src/refcodec.rs and spec.rs (transcribed from the AMQP 1.0 specification, self-tested on every case); open known findings are carved out by construction and counted")
+CHECKS["C20"] = ("exploration", "property-based testing (proptest): agreement relations between codec entry points over generated values, trailers and read-chunk sizes",
+  "seeded proptest search with shrinking; serialized_size vs to_vec, slice vs chunked io reader incl. exact stream consumption, LazyValue, to_value/from_value vs bytes",
+  "trusts the harness's chunked reader and cursor accounting; the from_value direction for described composites is an open known finding and excluded (counted)")
+
 NOT_APPLICABLE = {}
 
 ALL = ["C%02d" % i for i in range(1, 21)]
